@@ -269,6 +269,9 @@ func genOps(prop string, r *Rng, n int, tier string, emit func(string)) {
 				emit(opWith("rto", p))
 			case 0:
 				emit(encOp(p))
+				if r.Bool() {
+					emit(opWith("enccap", p))
+				}
 			case 1: // own decoder on own output
 				if b, err := safeMarshal(p); err == nil {
 					emit("dec." + k + " " + hx(b))
@@ -455,6 +458,13 @@ func genOps(prop string, r *Rng, n int, tier string, emit func(string)) {
 				emit("itemlen " + w.String())
 			}
 		}
+		for _, c := range []int{31, 32, 63, 64, 95, 96, 127, 128, 160, 192, 223, 224, 255} { // counts whose low bits look fine
+			emit(fmt.Sprintf("framed.APP %d 1 4e414d45 -", c))
+			t := twccWithDelta(1, 250)
+			t.Header.Count = uint8(c)
+			emit(opWith("framed", t))
+			emit(fmt.Sprintf("enc.HDR 0 %d 200 1", c))
+		}
 		for _, body := range []int{0, 0, 4, 8} { // RawPacket.Header(): the accessor decodes the packet's own first octets
 			b := hdrBytes(r.Bool(), int(r.Bits(5, 5)), r.Pick(192, 199, 208, 209), body/4)
 			b = append(b, r.Bytes(body)...)
@@ -561,6 +571,15 @@ func genOps(prop string, r *Rng, n int, tier string, emit func(string)) {
 		for i := 0; i < n/60; i++ {
 			emit("relay " + hx(genRelayDatagram(r)))
 		}
+		for _, el := range []int{1, 2, 3, 5} { // extensions that need padding; packets of four octets
+			emit("rt 1 " + packetTokens(&rtcp.SenderReport{SSRC: 1, ProfileExtensions: r.Bytes(el)}))
+			emit("rt 1 " + packetTokens(&rtcp.ReceiverReport{SSRC: 1, ProfileExtensions: r.Bytes(el)}))
+		}
+		emit("rt 1 " + packetTokens(&rtcp.Goodbye{}))
+		emit("rt 1 " + packetTokens(&rtcp.SourceDescription{}))
+		emit("rt 2 " + packetTokens(&rtcp.Goodbye{}) + " " + packetTokens(&rtcp.SourceDescription{}))
+		emit("udec 80c00000")
+		emit("udec 83cd000080d00000")
 		for _, pf := range registeredPairs { // 4-octet frames of every registered pair to every decoder
 			f := hdrBytes(false, pf[1], pf[0], 0)
 			for _, t := range decKinds {
@@ -858,6 +877,9 @@ func genOps(prop string, r *Rng, n int, tier string, emit func(string)) {
 			switch r.Intn(4) {
 			case 0:
 				emit(encOp(dirtyXRHeaders(r, genValue(r, "XR", r.Chance(1, 4)))))
+				if r.Bool() {
+					emit(opWith("enccap", genValue(r, "XR", false)))
+				}
 			case 1:
 				if r.Chance(1, 6) {
 					emit("decalias.XR " + hx(genXRBytes(r)))
@@ -869,6 +891,10 @@ func genOps(prop string, r *Rng, n int, tier string, emit func(string)) {
 			case 3:
 				emit("reenc " + hx(genXRBytes(r)))
 			}
+		}
+		for i := 0; i < 6; i++ { // a used receiver: blocks of an earlier packet, then a report with fewer (or no) blocks
+			emit("reuse.XR " + hx(genXRBytes(r)) + " " + hx([]byte{0x80, 207, 0, 1, 0, 0, 0, byte(i)}))
+			emit("reuse.XR " + hx(genXRBytes(r)) + " " + hx(genXRBytes(r)))
 		}
 		// blocks of 64 KiB and more (block length >= 16383 words): 16-bit octet arithmetic does not hold them
 		for reps := map[bool]int{false: 1, true: 4}[thorough]; reps > 0; reps-- {
@@ -883,6 +909,12 @@ func genOps(prop string, r *Rng, n int, tier string, emit func(string)) {
 			}
 		}
 	case "C16":
+		for c := 0; c < 256; c++ { // every count value through the header encoder
+			emit(fmt.Sprintf("enc.HDR %d %d %d %d", c&1, c, 200+c%8, c*257))
+		}
+		for i := 0; i < n/20; i++ { // headers on buffers whose capacity extends past their length
+			emit("decp.HDR " + hx(r.Bytes(r.Pick(0, 1, 2, 3, 4, 4))))
+		}
 		for i := 0; i < n; i++ {
 			switch r.Intn(12) {
 			case 0:
